@@ -6,6 +6,7 @@
 Require Import BB.Base.Str BB.Base.Xml BB.Model.PegSyntax BB.Model.Unparse.
 Require Import BB.Gen.Grammar BB.Gen.TablesTypes BB.Gen.TablesXsl.
 Require Import BB.Proofs.Tables BB.Model.UnparseDoc BB.Proofs.UnparseText.
+Require Import BB.Model.EidSpec BB.Proofs.UnparseEids.
 
 (* every element of the hierarchical template is printed with a keyword the parser reads back as
    the same element (other has no keyword: listed gap, it is unparsed by the catch-all template) *)
@@ -35,6 +36,19 @@ Theorem C05_templates_are_modelled :
   && forallb (fun m => negb (mem_str (T_ m) xsl_elements_with_template)) model_path_tags = true.
 Proof. exact templates_are_modelled. Qed.
 Print Assumptions C05_templates_are_modelled.
+
+(* the text the unparser writes does not depend on eIds: two trees that are equal up to their eId
+   attributes unparse, in every context and at every indentation, to the same text; in particular a
+   document and the same document without eIds.  So the eIds of a round-tripped document are exactly
+   what the id generator assigns to the re-parsed text, and for parser output those are the ids it
+   already had (C09_idempotent). *)
+Theorem C05_unparse_up_to_eids : forall f c i x y, eid_eq x y -> un f c i x = un f c i y.
+Proof. exact un_eid_eq. Qed.
+Print Assumptions C05_unparse_up_to_eids.
+
+Theorem C05_unparse_ignores_eids : forall x, unparse_doc (erase_eids x) = unparse_doc x.
+Proof. exact unparse_ignores_eids. Qed.
+Print Assumptions C05_unparse_ignores_eids.
 
 Example C05_example : (length xsl_hier_elements = 53)%nat /\ hier_keyword (of_string "subsection") = of_string "SUBSEC".
 Proof. split; vm_compute; reflexivity. Qed.
